@@ -1167,7 +1167,7 @@ def corr(ctx, oracle_only=False, scale=1.0):
     # the COMPOSED step (KWNFull.eulerStep, theorems eulerStep_fresh / runSteps_fresh): non-isothermal real runs replayed step by step
     # with the captured table rebuilds; lookup temperature, tables and the recorded temperature must be the implementation's
     if not oracle_only:
-        kwnfull.refine_scenarios(ctx, res, PROP, [('alzr-noniso', ctx.n(22, 70)), ('alzr-slow-ramp', ctx.n(22, 70)), ('alzr-noniso@rk4', ctx.n(12, 40))])
+        kwnfull.refine_scenarios(ctx, res, PROP, [('alzr-noniso', ctx.n(22, 70)), ('alzr-slow-ramp', ctx.n(22, 70)), ('alzr-noniso@rk4', ctx.n(12, 40)), ('alzr-noniso-nocheckT', ctx.n(22, 70))], oracles=('lookup',))
     vlib.finish_guard(res)      # harness errors are re-raised only when the run found no violation
     return res
 
